@@ -91,7 +91,25 @@ pub fn write_worlds(base: &Path, seed: u64) -> Result<Vec<(PathBuf, Vec<String>)
     let mut tries = 0;
     while k < N_WORLDS && tries < 200 {
         tries += 1;
-        let (dic, cfg) = strat.new_tree(&mut runner).map_err(|e| e.to_string())?.current();
+        let (dic, mut cfg) = strat.new_tree(&mut runner).map_err(|e| e.to_string())?.current();
+        if k == 1 {
+            // one world always carries the whole bundled plugin stack: the three input-text plugins of the shipped
+            // configuration (bracketed readings included) and a regex provider in front of the other OOV providers
+            cfg.chardef = FileSrc::Shipped;
+            cfg.input = vec![
+                InputPlugin::Default { rewrite: FileSrc::Shipped },
+                InputPlugin::Psm { marks: vec!['ー', '-', '⁓', '〜', '〰'], replacement: Some("ー".into()) },
+                InputPlugin::Yomigana { left: vec!['(', '（'], right: vec![')', '）'], max_len: 4 },
+            ];
+            let n = dic.matrix.nl.min(dic.matrix.nr) as i64;
+            cfg.oov.insert(0, OovPlugin::Regex { pos: pos_from_str(POS_PLUGIN), left: 0, right: (n - 1).max(0), cost: 2000, regex: "[A-Za-z]+-?[0-9]*[A-Za-z]*".into(), max_length: None, strict: None, user_pos: Some(true) });
+            for p in cfg.oov.iter_mut() {
+                if let OovPlugin::Mecab { chardef, unkdef, .. } = p {
+                    *chardef = FileSrc::Shipped;
+                    *unkdef = FileSrc::Text(small_unk_def(&FileSrc::Shipped, dic.matrix.nl.min(dic.matrix.nr), dic.matrix.nl.min(dic.matrix.nr)));
+                }
+            }
+        }
         let d = base.join(format!("world{}", k));
         std::fs::create_dir_all(&d).map_err(|e| e.to_string())?;
         let compiled = match guarded(|| compile_model(&dic)) {
